@@ -363,6 +363,61 @@ theorem c04_isubset_refines_atoms (t : Topology) (keep : Nat → Bool) :
     (isubset (ofNested t) keep).atoms.map IAtom.core = (ofNested (subset t keep)).atoms.map IAtom.core := by
   rw [c04_isubset_atoms, ofNested_atoms_core, ofNested_atoms_core, c04_subset_atoms, filterAtoms_eq_filterIdx, filterIdx_map]
 
+/-! the list form of `subset` (any order, repeats): numpy semantics, and the ordered subset as its special case -/
+
+/-- **numpy semantics**: the atoms of `subset(idx)` are the atoms at the listed positions, in the listed order, with their data -/
+theorem c04_isubsetL_atoms (t : ITop) (idx : List Nat) :
+    (isubsetL t idx).atoms.map IAtom.core = (gatherIdx t.atoms idx).map IAtom.core := by
+  simp only [isubsetL, List.map_map]
+  rfl
+
+theorem c04_isubsetL_length (t : ITop) (idx : List Nat) (h : ∀ i ∈ idx, i < t.atoms.length) :
+    (isubsetL t idx).atoms.length = idx.length := by
+  simp only [isubsetL, List.length_map, gatherIdx]
+  induction idx with
+  | nil => rfl
+  | cons i is ih =>
+    have hi : i < t.atoms.length := h i (by simp)
+    simp only [List.filterMap_cons, List.getElem?_eq_getElem hi, List.length_cons]
+    rw [ih (fun j hj => h j (by simp [hj]))]
+
+theorem rank_mono (keep : Nat → Bool) (i j : Nat) (h : i ≤ j) : rank keep i ≤ rank keep j := by
+  unfold rank
+  have := range_split i j h
+  rw [this, List.filter_append, List.length_append]
+  omega
+
+/-- **the ordered subset is the special case**: for the increasing list of the kept positions the list form is the predicate form of
+`subset` (bonds well-formed: both ends atoms of the topology, lower index first, as `add_bond` stores them) -/
+theorem c04_isubsetL_sorted (t : ITop) (keep : Nat → Bool)
+    (hb : ∀ b ∈ t.bonds, b.i ≤ b.j ∧ b.j < t.atoms.length) :
+    isubsetL t ((List.range t.atoms.length).filter keep) = isubset t keep := by
+  have hg : gatherIdx t.atoms ((List.range t.atoms.length).filter keep) = filterIdx keep 0 t.atoms :=
+    (filterIdx_eq_gather keep t.atoms).symm
+  have hlive : ((List.range t.atoms.length).filter keep).filter (· < t.atoms.length) = (List.range t.atoms.length).filter keep := by
+    apply List.filter_eq_self.mpr
+    intro x hx
+    simpa using mem_filter_range_lt keep _ x hx
+  have hbonds : t.bonds.filterMap (rebond (fun i =>
+      (((List.range t.atoms.length).filter keep).filter (· < t.atoms.length)).findIdx? (· == i))) =
+      (t.bonds.filter (fun b => keep b.i && keep b.j)).map (fun b => ({ b with i := rank keep b.i, j := rank keep b.j } : Bond)) := by
+    rw [← filterMap_ite_eq]
+    apply filterMap_congr_mem
+    intro b hbm
+    obtain ⟨hij, hj⟩ := hb b hbm
+    have hi : b.i < t.atoms.length := Nat.lt_of_le_of_lt hij hj
+    simp only [rebond]
+    rw [hlive, findIdx?_filter_range, findIdx?_filter_range]
+    by_cases hki : keep b.i = true <;> by_cases hkj : keep b.j = true
+    · have hm := rank_mono keep b.i b.j hij
+      simp [hi, hj, hki, hkj, Nat.min_eq_left hm, Nat.max_eq_right hm]
+    · simp [hi, hj, hki, hkj]
+    · simp [hi, hj, hki, hkj]
+    · simp [hi, hj, hki, hkj]
+  unfold isubsetL isubset
+  simp only [hg, hbonds]
+
+
 /-! non-vacuity: a topology whose numbering interleaves two residues (A0 B0 A1 B1) -/
 def exI : ITop :=
   { chainIds := [some "X"]
@@ -379,6 +434,8 @@ example : isubset exI (fun i => i == 1 || i == 3) =
       atoms := [⟨"B0", "N", none, 0⟩, ⟨"B1", "S", none, 0⟩], bonds := [⟨0, 1, none, none⟩] } := by decide
 example : (ijoin exI exI false).atoms.map (·.res) = [0, 1, 0, 1, 2, 3, 2, 3] ∧
     (ijoin exI exI false).residues.map (·.resSeq) = [1, 2, 3, 4] := by decide
+example : (isubsetL exI [3, 0, 3]).atoms.map (·.name) = ["B1", "A0", "B1"] ∧ (isubsetL exI [2, 0]).bonds = [⟨0, 1, none, none⟩] := by decide
+
 example : isubset exI (fun _ => true) = exI :=
   c04_isubset_all exI (by decide) (by decide) (by decide) (by decide)
 
